@@ -1,7 +1,7 @@
 """Build real sc3 SynthDefs from *programs* and project what happened (used by drivers c01/c02/c20).
 
 A program (see spec/SynthGraph.tla, "Programs") is
-    {name, ctl: [{n, r, d}], ins: [{op, cls, sel, rate, nout, a: [{k, i, ch}]}]}
+    {name, ctl: [{n, r, d (, w: width of an array-valued control)}], ins: [{op, cls, sel, rate, nout, a: [{k, i, ch}]}]}
     op  = gen (unit constructor) | un | bin | madd | sum
     operand k = "c" constant i | "r" channel ch of the result of instruction i (1-based) | "p" control i (1-based)
 The graph function calls the real constructors / Python operators exactly as a user would write them.
@@ -122,6 +122,12 @@ def _flat(x):
     return [x]
 
 
+def ctl_default(c):
+    """default of a control parameter: a number, or for width w > 1 the tuple ((d + ch) % 7 for ch < w)"""
+    w = c.get('w', 1)
+    return c['d'] if w == 1 else tuple((c['d'] + ch) % 7 for ch in range(w))
+
+
 def release_bytes(sd):
     mv = getattr(sd, '_bytes', None)
     if isinstance(mv, memoryview):
@@ -162,7 +168,8 @@ class Builder:
                 if o['k'] == 'c':
                     return o['i']
                 if o['k'] == 'p':
-                    return ctl[o['i'] - 1]
+                    v = ctl[o['i'] - 1]
+                    return v[o['ch']] if isinstance(v, list) else v      # channel of an array-valued control
                 return vals[o['i'] - 1][o['ch']]
 
             for idx, ins in enumerate(prog['ins']):
@@ -241,7 +248,7 @@ class Builder:
         # a function with named positional parameters, as SynthDef requires
         if nctl:
             src = 'def graph(%s):\n    return body(%s)\n' % (
-                ', '.join('%s=%r' % (c['n'], c['d']) for c in prog['ctl']), ', '.join(names))
+                ', '.join('%s=%r' % (c['n'], ctl_default(c)) for c in prog['ctl']), ', '.join(names))
             scope = {'body': body}
             exec(src, scope)
             return scope['graph']
